@@ -44,15 +44,21 @@ namespace impl {
 
 			if(!tags) tags=&tmp_triggers;
 			
-			if(l1_->fetch(key,a,tags,timeout_out,gen)) {
-				int res = tcp()->fetch(key,*a,tags,*timeout_out,*gen,true);
-				if(res==tcp_cache::up_to_date)
+			std::set<std::string> l1_triggers;
+			if(l1_->fetch(key,a,&l1_triggers,timeout_out,gen)) {
+				// the triggers of the local copy are valid only if the server confirms that it is up to date
+				std::set<std::string> new_triggers;
+				int res = tcp()->fetch(key,*a,&new_triggers,*timeout_out,*gen,true);
+				if(res==tcp_cache::up_to_date) {
+					tags->insert(l1_triggers.begin(),l1_triggers.end());
 					return true;
+				}
 				if(res==tcp_cache::not_found) {
 					l1_->remove(key);
 					return false;
 				}
-				l1_->store(key,*a,*tags,*timeout_out,gen);
+				l1_->store(key,*a,new_triggers,*timeout_out,gen);
+				tags->insert(new_triggers.begin(),new_triggers.end());
 				return true;
 			}
 			else {
